@@ -204,7 +204,7 @@ def q_float_repr():
         rules, literals, ignore, remap = _rules_re()
         shape, _ = _generator_float_transform(None)
     except Untranslatable as ex:
-        return SmtResult(status="unknown", detail=str(ex))
+        return SmtResult(status="not_encoded", detail=str(ex))
     for x in BOUNDARY_FLOATS:
         r, _, _ = _check([z3.Not(z3.InRe(z3.StringVal(repr(x)), FLOATREPR))])
         if r != "unsat":
@@ -246,7 +246,7 @@ def q_int_repr():
     try:
         rules, literals, ignore, remap = _rules_re()
     except Untranslatable as ex:
-        return SmtResult(status="unknown", detail=str(ex))
+        return SmtResult(status="not_encoded", detail=str(ex))
     s = z3.String("s")
     bad = single_token_constraints(s, "INT", rules, [" ", "\n", "]", ":"])
     total = 0.0
@@ -273,7 +273,7 @@ def q_identifier():
     try:
         rules, literals, ignore, remap = _rules_re()
     except Untranslatable as ex:
-        return SmtResult(status="unknown", detail=str(ex))
+        return SmtResult(status="not_encoded", detail=str(ex))
     from jaqalpaq.core.identifier import valid_identifier_regex
     from jaqalpaq.utilities import RESERVED_WORDS
     pat = valid_identifier_regex.pattern.lstrip("^").rstrip("$")
@@ -316,7 +316,7 @@ def q_comments():
     try:
         rules, literals, ignore, remap = _rules_re()
     except Untranslatable as ex:
-        return SmtResult(status="unknown", detail=str(ex))
+        return SmtResult(status="not_encoded", detail=str(ex))
     byname = {n: r for n, p, r in rules}
     if "ignore_multiline_comment" not in byname or "ignore_comment" not in byname:
         return SmtResult(status="unknown", detail="comment rules not found")
@@ -361,7 +361,7 @@ def q_keywords():
     try:
         rules, literals, ignore, remap = _rules_re()
     except Untranslatable as ex:
-        return SmtResult(status="unknown", detail=str(ex))
+        return SmtResult(status="not_encoded", detail=str(ex))
     want = {"register": "REG", "map": "MAP", "let": "LET", "macro": "MACRO", "loop": "LOOP", "import": "IMPORT", "usepulses": "USEPULSES",
             "from": "FROM", "as": "AS", "branch": "BRANCH", "subcircuit": "SUBCIRCUIT"}
     if remap != want:
@@ -410,7 +410,7 @@ def q_classes():
     try:
         rules, literals, ignore, remap = _rules_re()
     except Untranslatable as ex:
-        return SmtResult(status="unknown", detail=str(ex))
+        return SmtResult(status="not_encoded", detail=str(ex))
     ref = reference_classes()
     delims = {"IDENTIFIER": [" ", "\n", "[", "]", ";"], "INT": [" ", "\n", "]", ":"], "NUMBER": [" ", "\n", ";"], "DOTIDENTIFIER": [" "], "BININT": [":", " "], "NL": [" ", "a"]}
     s = z3.String("s")
@@ -516,7 +516,7 @@ def q_token_actions():
     try:
         rules, literals, ignore, remap = _rules_re()
     except Untranslatable as ex:
-        return SmtResult(status="unknown", detail=str(ex))
+        return SmtResult(status="not_encoded", detail=str(ex))
     limit = sys.get_int_max_str_digits() if hasattr(sys, "get_int_max_str_digits") else 0
     queries = 0
     st = 0.0
